@@ -562,10 +562,10 @@ def _oracle_concat(a, io):
     if durs and len(durs) != len(seqs):
         return _expect_exc(io, 'ValueError', 'concat', 'duration-count-mismatch')
     use = bool(durs)
-    if use and any(d < s['total'] for d, s in zip(durs, seqs)):
-        return _expect_exc(io, 'ValueError', 'concat', 'short-duration')
     if any(_quantized(s) for s in seqs):
         return None                         # outside the quantifier (unquantized pieces)
+    if use and any(d < s['total'] for d, s in zip(durs, seqs)):
+        return _expect_exc(io, 'ValueError', 'concat', 'short-duration')
     if io[0] != 'OK':
         return {'kind': 'concat-valid-input-rejected', 'got': io[1]}
     wout = io[1]
